@@ -160,7 +160,7 @@ PROJECTIONS = {
     "pools": proj_by_op({"seal": ("pools", "pools_n"), "next": ("pools", "pools_n")}, default=("none",)),
     "stakes": proj_by_op({"batch": ("stakes",), "next": ("stakes",), "block": ("stakes",), "confirm": ("all",), "sdoc": ("all",)}, default=("none",)),
     "speed": proj_by_op({"batch": ("ds",), "powd": ("all",)}, default=("none",)),
-    "chain": proj_by_op({"next": ("all",), "block": ("all",), "restore": ("all",), "mt": ("all",), "mp": ("all",), "dt": ("all",), "dp": ("all",)}, default=("none",)),
+    "chain": proj_by_op({"next": ("all",), "block": ("all",), "restore": ("all",), "mt": ("all",), "mp": ("all",), "dt": ("all",), "dp": ("all",), "hdrenc": ("all",)}, default=("none",)),
     "blocks": proj_by_op({"block": ("status",)}, default=("none",)),
     "restore": proj_by_op({"restore": ("all",), "next": ("all",)}, default=("none",)),
     "confirm": proj_by_op({"confirm": ("all",)}, default=("none",)),
